@@ -198,6 +198,14 @@ func (cl *Client) WriteLoop() {
 			if err := cl.WritePacket(*pk); err != nil {
 				// TODO : Figure out what to do with error
 				cl.ops.log.Debug("failed publishing packet", "error", err, "client", cl.ID, "packet", pk)
+
+				// The refused packet may have been the last of a burst: packets buffered (and
+				// reported as sent) while the queue was non-empty must not stay in the buffer.
+				cl.Lock()
+				if len(cl.State.outbound) == 0 {
+					_ = cl.flushOutbuf()
+				}
+				cl.Unlock()
 			}
 			atomic.AddInt32(&cl.State.outboundQty, -1)
 		case <-cl.State.open.Done():
